@@ -106,6 +106,17 @@ def c16(ck):
                 if not okk:
                     ck.failures.append({"what": "a socket-activated service was not started with descriptor 3 and LISTEN_FDS/LISTEN_FDNAMES/LISTEN_PID (own pid)/VARLINK_ADDRESS",
                                         "report": rep, "childpid": f.get("childpid")})
+                again = f.get("again", "")
+                ok2 = False
+                if again and not again.startswith("err:"):
+                    try:
+                        y = canon_reply_stream(unhx(again))
+                        ok2 = len(y) == 1 and "interfaces" in (y[0].get("parameters") or {})
+                    except Exception:
+                        ok2 = False
+                if not ok2:
+                    ck.failures.append({"what": "a second connection to the address reported by an activated connection (Connection::address()) does not reach the service, "
+                                                "unlike every other transport", "result": again[:200]})
         elif kind == "activation":
             expect = m[2]
             got = a.replace("probe=", "")
